@@ -328,6 +328,23 @@ def run_rule(case):
     if rule is None:
         return out
     out["loaded"] = bool(rule.is_loaded())
+    # every proposition of the loaded rule must pair a variable with one of ITS OWN terms
+    foreign = []
+
+    def walk(node):
+        if node is None:
+            return
+        if isinstance(node, fl.Proposition):
+            if node.term is not None and node.variable is not None and not any(t is node.term for t in node.variable.terms):
+                foreign.append(f"{node.variable.name} is {node.term.name}")
+        else:
+            walk(getattr(node, "left", None))
+            walk(getattr(node, "right", None))
+
+    walk(rule.antecedent.expression)
+    for c in rule.consequent.conclusions:
+        walk(c)
+    out["foreign_terms"] = foreign
     out["postfix"] = rule.antecedent.postfix().split()
     out["concl"] = [[c.variable.name, [h.name for h in c.hedges], c.term.name if c.term else None]
                     for c in rule.consequent.conclusions]
@@ -378,6 +395,12 @@ def oracle(case):
             return False, f"internal error when loading '{txt}' into an existing rule: {sl[0]}"
         if sl[0] != "ok" and sl[1]:
             return False, f"rule reports is_loaded() after the load of '{txt}' failed ({sl[0]})"
+    if r["kind"] != "ok" and sl is not None and sl[0] == "ok":
+        return False, (f"rule text '{txt}' is rejected by Rule.create ({r['msg']}) but a rule object that was loaded before "
+                       f"accepts it through parse() + load() (is_loaded() = {sl[1]})")
+    if r["kind"] == "ok" and r.get("foreign_terms"):
+        return False, (f"rule '{txt}' was accepted although it uses a term that does not belong to the variable of its "
+                       f"proposition: {r['foreign_terms']}")
     if r["kind"] != "ok":
         if case.get("must") == "accept":
             return False, f"valid rule '{txt}' rejected: {r['msg']}"
